@@ -212,6 +212,11 @@ func restoreNodeOpts(p *Program, nt nodeType) *UnitOpts {
 				nRec++
 				env := envAt(ev.St)
 				ex.obligeSpec(env, fmt.Sprintf("%s#maps:registered_before_recursion@%d", name, nRec), "schema", ev.Guard, "has(r.Ast.Nodes, n)", nil)
+				// C06: the duplicate check is never switched off on the way down — a recursive call hands on the flag it was given
+				if ad, ok := frm.params["allowDuplicate"]; ok && len(ev.Args) > 0 && ev.Depth == 0 {
+					ex.oblige(fmt.Sprintf("%s#maps:allow_duplicate_handed_on@%d", name, nRec), "schema", ev.Guard, eq(ev.Args[len(ev.Args)-1].T, ad.T),
+						"the recursive restoreNode call passes the caller's allowDuplicate", ex.pos(ev.Instr.Pos()))
+				}
 			}
 		}
 		restoreTape(ex, frm, p, nt, name, g, st, envAt, res[0].T)
